@@ -146,27 +146,3 @@ func ZZ_C25_distribution() {
 		}
 	}
 }
-
-// ZZ_C25_split: the split of a batch amount a: kernel = floor(a/10)*5 <= a/2, custodian =
-// floor(a/10)*4, light = a - distributed - custodian > 0, with the real Integer arithmetic
-// and the same expressions as buildUniversalMintTransaction.
-func ZZ_C25_split() {
-	ab := vr.BigInt(0)
-	vr.Assume(ab.Cmp(big.NewInt(10)) >= 0)
-	amount := common.ZZIntegerFromBig(ab)
-	kernel := amount.Div(10).Mul(5)
-	safe := amount.Div(10).Mul(4)
-	tenth := new(big.Int).Quo(ab, big.NewInt(10))
-	vr.Assert(kernel.ZZBig().Cmp(new(big.Int).Mul(tenth, big.NewInt(5))) == 0, "kernel-share-is-five-tenths-rounded-down")
-	vr.Assert(new(big.Int).Mul(kernel.ZZBig(), big.NewInt(2)).Cmp(ab) <= 0, "kernel-share-at-most-half")
-	vr.Assert(safe.ZZBig().Cmp(new(big.Int).Mul(tenth, big.NewInt(4))) == 0, "custodian-share-is-four-tenths-rounded-down")
-	// any distribution within the kernel share leaves a positive light share and the outputs sum to a
-	db := vr.BigInt(0)
-	vr.Assume(db.Sign() > 0 && db.Cmp(kernel.ZZBig()) <= 0)
-	total := common.NewInteger(0).Add(common.ZZIntegerFromBig(db)).Add(safe)
-	vr.Assert(total.Cmp(amount) <= 0, "kernel-plus-custodian-within-amount")
-	light := amount.Sub(total)
-	vr.Assert(light.Sign() > 0, "light-share-positive")
-	vr.Assert(new(big.Int).Add(new(big.Int).Add(db, safe.ZZBig()), light.ZZBig()).Cmp(ab) == 0, "outputs-sum-exactly-to-the-batch-amount")
-	vr.Cover("split")
-}
